@@ -328,6 +328,9 @@ func (h *histLabels) list() []string {
 }
 
 type runOpts struct {
+	// captchaSometimes: half of the histories start on a network with captcha URL and secret
+	// configured (+x channels, captcha tokens as JOIN keys and in PASS)
+	captchaSometimes bool
 	gen     ircgen.Options
 	minLen  int
 	maxLen  int
@@ -339,7 +342,7 @@ type runOpts struct {
 func runGenerated(rt *rapid.T, ro runOpts, orc oracle) (*hcase, *vh.Failure, []string) {
 	initial := ro.initial
 	def := ircgen.DefaultConfig()
-	if ro.captcha {
+	if ro.captcha || (ro.captchaSometimes && rapid.Bool().Draw(rt, "captcha_network")) {
 		def = ircgen.CaptchaConfig()
 	}
 	if initial == "" {
